@@ -1,4 +1,4 @@
-import ColoVerif.Model.Grid
+import ColoVerif.Model.GridSched
 import Driver.Common
 import Driver.CircuitIO
 /-
@@ -18,6 +18,16 @@ Driver for C16: replays the harness' operations on the density-grid model.
   ytrans | <assign col 0>* | …                                  -> allocation dump
   snap <lx> <ly> | <bins…> | <cbx…> | <cby…>  -> `snap ok` iff the snapshot satisfies the allocation invariant
                                                for the same demands (then the model continues from it)
+
+With the op-log hook H4 the public passes are replayed call by call instead of by snapshot:
+  params <nbSteps> <lineSize> <lineOverlap> <diagSize> <diagOverlap> <squareSize> <squareOverlap> <unidim>
+                                            -> (nothing; `params BAD` if `check()` would have refused them)
+  pass <name> | <doX doY>*                  -> `pass <name> <#calls of the model's schedule> <#decisions read>`;
+                                               the schedule (`passCalls`) becomes the queue of expected calls
+  pcall <logged call(s)> | <hole sections>  -> `pcall ok` iff the logged call (nested calls after ` ; `) is the
+                                               head of the queue, then the skeleton of *the scheduled* call is
+                                               applied with the observed holes: touched bins / allocation dump
+  endpass                                   -> `endpass <#calls still expected>` + allocation dump
 -/
 open ColoVerif ColoVerif.Grid Driver
 
@@ -25,6 +35,9 @@ structure St where
   circ : Circuit := ⟨[], [], []⟩
   grid : DGrid := default
   hs : HState := default
+  params : LegParams := default
+  /-- calls the current pass is still expected to make -/
+  sched : List Call := []
 
 def rects : List Int → List Rect
   | a :: b :: c :: d :: rest => ⟨a, b, c, d⟩ :: rects rest
@@ -75,6 +88,50 @@ def dumpView (s : HState) : List String :=
 def unflat (nx ny : Nat) (l : List (List Nat)) : Bins :=
   (List.range nx).map fun i => (List.range ny).map fun j => l.getD (i * ny + j) []
 
+def showPairs (l : List (Nat × Nat)) : String := " ".intercalate (l.map fun p => s!"{p.1} {p.2}")
+
+def renderCall : Call → String
+  | .refineX => "refineX" | .refineY => "refineY" | .coarsenX => "coarsenX" | .coarsenY => "coarsenY"
+  | .rebisect x1 y1 x2 y2 => s!"rebisect {x1} {y1} {x2} {y2}"
+  | .reoptimize cands => line "reoptimize" (showPairs cands)
+  | .xTransport => "improveXTransport"
+  | .yTransport => "improveYTransport"
+
+/-- the log of one scheduled call, as the harness prints it -/
+def renderLogged (c : Call) : String := " ; ".intercalate (c.logged.map renderCall)
+
+def bools : List Int → List (Bool × Bool)
+  | a :: b :: rest => (a != 0, b != 0) :: bools rest
+  | _ => []
+
+def passOfName : String → Option Pass
+  | "improve" => some .improve | "refine" => some .refine | "run" => some .run
+  | "runCoarsening" => some .runCoarsening | "runRefinement" => some .runRefinement | _ => none
+
+/-- contents of the touched bins, then `cellBinX/Y` of the cells they hold -/
+def dumpTouched (s : HState) (G : List (Nat × Nat)) : List String :=
+  let cs := s.gather G
+  [line "tb" (" ".intercalate (G.map fun p => showBin (s.cells p.1 p.2))) ++ " | " ++
+    showInts (cs.map fun c => s.cbx.getD c (-9)) ++ " | " ++ showInts (cs.map fun c => s.cby.getD c (-9))]
+
+/-- apply a scheduled call with the observed holes and print what it touched -/
+def applyCall (hs : HState) (c : Call) (secs : List (List String)) : HState × List String :=
+  match c with
+  | .refineX | .refineY | .coarsenX | .coarsenY =>
+    let hs' := hs.apply (c.toOp {})
+    (hs', dumpAlloc hs' ++ dumpView hs')
+  | .rebisect x1 y1 x2 y2 =>
+    let h : Hole := { split := (nats (secs.getD 0 [])).headD 0, order := nats (secs.getD 1 []) }
+    let hs' := hs.apply (c.toOp h)
+    (hs', dumpTouched hs' (if x1 = x2 ∧ y1 = y2 then [(x1, y1)] else [(x1, y1), (x2, y2)]))
+  | .reoptimize cands =>
+    let h : Hole := { split := (nats (secs.getD 0 [])).headD 0, order := nats (secs.getD 1 []), assign := nats (secs.getD 2 []) }
+    let hs' := hs.apply (c.toOp h)
+    (hs', dumpTouched hs' cands)
+  | .xTransport | .yTransport =>
+    let hs' := hs.apply (c.toOp { assigns := secs.map nats })
+    (hs', dumpAlloc hs')
+
 def step (s : St) (ws : List String) : St × List String :=
   match circuitLine s.circ ws with
   | some c => ({ s with circ := c }, [])
@@ -117,6 +174,29 @@ def step (s : St) (ws : List String) : St × List String :=
   | "ytrans" :: rest =>
     let hs := s.hs.improveYTransportSk ((sections rest).drop 1 |>.map nats)
     ({ s with hs := hs }, dumpAlloc hs)
+  | ["params", n, ls, lo, ds, dO, ss, so, u] =>
+    let p : LegParams := ⟨(int! n).toNat, (int! ls).toNat, (int! lo).toNat, (int! ds).toNat, (int! dO).toNat,
+      (int! ss).toNat, (int! so).toNat, (int! u) != 0⟩
+    ({ s with params := p }, if p.accepted && decide (int! n ≥ 0) then [] else ["params BAD"])
+  | "pass" :: name :: rest =>
+    match passOfName name with
+    | some ps =>
+      let choices := bools (ints (rest.drop 1))
+      let sched := passCalls s.params s.hs.view choices ps
+      let used := match ps with
+        | .run | .runCoarsening => Sched.coarsenUsed choices s.hs.view
+        | _ => 0
+      ({ s with sched := sched }, [s!"pass {name} {sched.length} {used}"])
+    | none => (s, ["bad-op pass " ++ name])
+  | "pcall" :: rest =>
+    match s.sched, sections rest with
+    | c :: more, logged :: secs =>
+      if renderLogged c == " ".intercalate logged then
+        let (hs, out) := applyCall s.hs c secs
+        ({ s with hs := hs, sched := more }, "pcall ok" :: out)
+      else ({ s with sched := [] }, ["pcall MISMATCH the schedule expects: " ++ renderLogged c])
+    | _, _ => (s, ["pcall MISMATCH the schedule expects no further call"])
+  | ["endpass"] => ({ s with sched := [] }, s!"endpass {s.sched.length}" :: dumpAlloc s.hs)
   | "snap" :: rest =>
     match sections rest with
     | [[lx, ly], bins, cbx, cby] =>
